@@ -11,6 +11,7 @@ def ropOf (j : Json) : Except String ROp := do
   match ← asArr j with
   | [Json.str "set", k, v] => return .set (← asStr k) (← asBytes v)
   | [Json.str "setlog", k, v, m] => return .setLog (← asStr k) (← asBytes v) (← asStr m)
+  | [Json.str "setlogold", k, v, m, _] => return .setLog (← asStr k) (← asBytes v) (← asStr m)   -- a stale caller-supplied old value is ignored
   | [Json.str "get", k] => return .get (← asStr k)
   | [Json.str "del", k] => return .del (← asStr k)
   | [Json.str "filter", ps, nps] => return .filter (← strList ps) (← strList nps)
